@@ -18,6 +18,9 @@ SITES = [
     ("this-star-tie-exclude", "from t | select {x = a + 1, t.k} | join u (==k) | select !{t.k}"),
     ("this-star-tie-declared", "module default_db {\n  let t <[{k = int, a = int, b = int}]>\n  let u <[{k = int, a = int, c = int}]>\n}\nfrom t | select {x = a + 1, t.k} | join u (==k) | select !{t.k}"),
     ("this-star-tie-3", "from t | derive {y = b} | select {k, p = a, q = y} | join u (==k) | join v = u (t.k == v.k) | select !{p}"),
+    ("same-table-name-in-two-modules", "module a { let t = (from x | take 5) }\nmodule b { let t = (from y | take 7) }\nfrom a.t | join u = b.t (==id) | select {t.id, u.v}"),
+    ("same-table-name-three", "module a { let r = (from x | take 5) }\nmodule b { let r = (from y | take 7) }\nmodule c { let r = (from z | take 9) }\nfrom a.r | join b.r (==id) | join q = c.r (a.r.id == q.id) | take 2"),
+    ("let-named-like-generated", "let table_0 = (from x | take 5)\nfrom y | take 3 | join table_0 (==id) | take 2 | filter id > 1"),
     ("dup-names-at-split", "from t | join u (==k) | take 3 | derive {s = sum t.b} | select {t.a, u.a, t.k, u.k, s}"),
     ("many-sorts", "from t | sort {b, -a, k} | derive {p = a, q = a, r = b} | take 5 | sort {q, p} | select {p, q, r} | take 2"),
     ("unknown-name-hints", "from t | derive {x1 = a, x2 = a, x3 = b} | select {x1, x2, x3} | filter zzz > 1"),
@@ -31,6 +34,13 @@ SITES = [
 PROJECT = [
     [["Project.prql", "from lib.b.adults\n"], ["lib/a.prql", "let people = (from employees | select {name, age})\n"], ["lib/b.prql", "let adults = (lib.a.people | filter age > 18)\n"]],
     [["Project.prql", "from x.q | join y.r (==k)\n"], ["x.prql", "let q = (from t | take 2)\n"], ["y.prql", "let r = (from u | take 3)\n"], ["z.prql", "let unused = 1\n"]],
+    # files of one stem in sibling directories, depending on each other in either direction
+    [["Main.prql", "from y.util.recent | take 3\n"], ["x/util.prql", "let base = (from raw_events | derive {score = points * 2})\n"],
+     ["y/util.prql", "let recent = (from x.util.base | filter score > 10 | select {id, score})\n"]],
+    [["Main.prql", "from x.util.recent | take 3\n"], ["y/util.prql", "let base = (from raw_events | derive {score = points * 2})\n"],
+     ["x/util.prql", "let recent = (from y.util.base | filter score > 10 | select {id, score})\n"]],
+    [["Main.prql", "from c.m.top\n"], ["a/m.prql", "let low = (from t | take 5)\n"], ["b/m.prql", "let mid = (from a.m.low | filter k > 1)\n"],
+     ["c/m.prql", "let top = (from b.m.mid | join a.m.low (==k))\n"], ["a/b/m.prql", "let deep = (from t | take 1)\n"]],
     [["Project.prql", "from m1.t1\n"], ["m1.prql", "let t1 = (from a | filter zz +)\n"], ["m2.prql", "let t2 = (from b | filter +)\n"]],
 ]
 HISTORY = ["from t | select {a} | filter zz > 1", "from t | take", "from t | sort {b, -a, k} | sort {-a, b, k} | select {k, z = b} | select {k}",
